@@ -376,6 +376,11 @@ impl AlphaCfg {
         for &author in &self.actors {
             for &group in &self.groups {
                 for v in &self.later_creates {
+                    // a variant that would name the author twice is skipped
+                    let names: Vec<GroupMember<Id>> = v.iter().map(|(m, _)| m.unwrap_or(ind(author))).collect();
+                    if (0..names.len()).any(|i| names[..i].contains(&names[i])) {
+                        continue;
+                    }
                     push(Cand {
                         author,
                         group,
@@ -540,6 +545,12 @@ impl<C: CT> Hist<C> {
             }
         }
         false
+    }
+    /// Size used to choose the reported reproduction: fewer operations first, then fewer creates
+    /// (a second create of a group is itself a C33 finding and only obscures an example).
+    pub fn example_size(&self) -> usize {
+        let creates = self.ops.iter().filter(|o| matches!(o.op.action, GroupAction::Create { .. })).count();
+        self.n() * 8 + creates
     }
     pub fn content_hash(&self) -> u64 {
         let v: Vec<(u32, u32)> = self.ops.iter().map(|o| o.key).collect();
